@@ -198,7 +198,13 @@ def tables(cfg, crate, rep):
             splits = []
             for sv_ in common.find_structs(x, "CidrSubnet::"):
                 for fk_ in sorted(sv_.fields):
-                    ft_ = core(sv_.fields[fk_]).r()
+                    fv_ = core(sv_.fields[fk_])
+                    ft_ = fv_.r()
+                    if isinstance(fv_, MutV):
+                        # a zeroed array filled by `copy_from_slice(src)`: the field is (a copy of) src
+                        fills_ = [o for o in fv_.ops if o[0] == "call" and o[1] in ("copy_from_slice", "clone_from_slice") and len(o) > 2]
+                        if len(fills_) == 1 and len(fv_.ops) == 1:
+                            ft_ = core(fills_[0][2]).r()
                     roles_ = {("head", int(m_)) for m_ in _re.findall(r"RangeTo\{end: (\d+)\}", ft_)} \
                         | {("tail", int(m_)) for m_ in _re.findall(r"RangeFrom\{start: (\d+)\}", ft_)} \
                         | {("head" if i_ == "0" else "tail", int(m_)) for m_, i_ in _re.findall(r"split_at\((?:[^()]|\([^()]*\))*?, (\d+)\)\.([01])", ft_)}
